@@ -244,19 +244,25 @@ func (w *Writer) DeleteNode(x *skiplist.Node) (success bool) {
 		}
 	}()
 
-	x.SetLink(nil)
 	sn := w.GetCurrSn()
 	gotItem := (*Item)(x.Item())
 	if gotItem.bornSn == sn {
 		success = w.store.DeleteNode(x, w.insCmp, w.buf, &w.slSts1)
-
-		barrier := w.store.GetAccesBarrier()
-		barrier.FlushSession(unsafe.Pointer(x))
+		// Only the writer that actually deleted the node owns it: it alone may
+		// reset the link and hand the node over for reclamation
+		if success {
+			x.SetLink(nil)
+			barrier := w.store.GetAccesBarrier()
+			barrier.FlushSession(unsafe.Pointer(x))
+		}
 		return
 	}
 
 	success = atomic.CompareAndSwapUint32(&gotItem.deadSn, 0, sn)
 	if success {
+		// The node now belongs to this writer's garbage list. A writer that lost
+		// the race must not touch the link: it may already chain the winner's list
+		x.SetLink(nil)
 		if w.gctail == nil {
 			w.gctail = x
 			w.gchead = w.gctail
